@@ -25,7 +25,10 @@ def cases(draw, tier):
         sc["large"] = True
     else:
         sc = draw(gen.state_case(types=[t], n=(1, 4 if t == "density" else 5), nh=(1, 4), na=(1, 3), bound=100.0))
-    return {"state": sc, "idx": draw(gen.index_list(sc["n"], 1, 5))}
+    c = {"state": sc, "idx": draw(gen.index_list(sc["n"], 1, 5))}
+    if draw(st.integers(0, 24)) == 0:
+        c["big_rows"] = draw(st.sampled_from([300, 1030, 10056, 25003]))     # rows of a large batch: the indices cycle through the drawn idx pattern
+    return c
 
 
 def dense_ops(n):
@@ -60,6 +63,9 @@ def check(case):
     obs = [("X", lambda a: SigmaX(absolute=a)), ("Y", lambda a: SigmaY(absolute=a)), ("Z", lambda a: SigmaZ(absolute=a))]
     ey = None
     idx = case["idx"]
+    if case.get("big_rows"):
+        base = case["idx"]
+        idx = [(base[i % len(base)] + i * (1 + i // 7)) % (2 ** n) for i in range(case["big_rows"])]
     for key, mk in obs:
         keep = space.clone()
         vals = mk(False).apply(state, space)
@@ -82,6 +88,9 @@ def check(case):
         for pbc in (False, True):
             keep = space.clone()
             vals = NeighbourInteraction(periodic_bcs=pbc, c=c).apply(state, space)
+            if case.get("big_rows") and c == 1:
+                subv = NeighbourInteraction(periodic_bcs=pbc, c=c).apply(state, space[idx].clone())
+                require(tuple(subv.shape) == (len(idx),) and bool(torch.all((subv.double() - vals.double()[idx]).abs() <= 1e-9)), "pointwise:NI", "NeighbourInteraction on a large batch differs from the rows of the full evaluation")
             require(torch.equal(space, keep), "mutated:NI", "NeighbourInteraction.apply modified the sample array")
             require(tuple(vals.shape) == (2 ** n,), "shape:NI", f"NeighbourInteraction.apply returned shape {tuple(vals.shape)}")
             est = float((p * vals.double()).sum())
